@@ -473,6 +473,114 @@ def extract(bdir):
     out.append("/-- src/backend.c call_heart_beat, last statement of the loop body: (new heart_beat_index, leave the loop) -/\n"
                "def loopStep (heart_beat_index num_hb_to_do : Int) : Int × Bool :=\n  (%s,\n   decide %s)\n"
                % (sy.state["heart_beat_index"], sy.brk))
+    # ---------------- fail closed: the cursor variables must not be written anywhere the slices above do not see -------
+    import re as _re
+    src_path = os.path.join(E.REPO, "src/backend.c")
+    raw = open(src_path, "rb").read()
+
+    def blank(m):
+        return _re.sub(rb"[^\n]", b" ", m.group(0))
+    text = _re.sub(rb"/\*.*?\*/", blank, raw, flags=_re.S)
+    text = _re.sub(rb"//[^\n]*", blank, text)
+
+    def frange(fn_node):
+        r = fn_node.get("range", {})
+        b = r.get("begin", {}).get("offset")
+        e = r.get("end", {}).get("offset")
+        if b is None or e is None:
+            raise TieBroken("backend.c:cursor-uses", "no source range for " + fn_node.get("name", "?"))
+        return b, e
+    shb_fn = ast_function(bdir, "src/backend.c", "set_heart_beat")
+    ranges = [frange(shb_fn), frange(chb)]
+    stray = []
+    for m in _re.finditer(rb"\b(heart_beat_index|num_hb_to_do)\b", text):
+        off = m.start()
+        if any(b <= off <= e for b, e in ranges):
+            continue
+        line = text[text.rfind(b"\n", 0, off) + 1: text.find(b"\n", off)].decode(errors="replace").strip()
+        if _re.match(r"static int (heart_beat_index|num_hb_to_do) = 0;$", line):
+            continue
+        stray.append(line)
+    if stray:
+        raise TieBroken("backend.c:cursor-uses", "heart_beat_index / num_hb_to_do are used outside set_heart_beat and "
+                        "call_heart_beat: %s" % stray[:3])
+    # inside set_heart_beat every write of the cursor must be in the removal branch statements translated above,
+    # the address of a cursor variable must not be taken, and the removal branch must not call unknown helpers
+    probe = Sym("x", ["heart_beat_index", "num_hb_to_do"], {}, [])
+
+    def count_writes(n):
+        c = 0
+        for x in walk(n):
+            k = x.get("kind")
+            if k == "UnaryOperator" and x.get("opcode") in ("++", "--") and probe.lvalue(kids(x)[0]):
+                c += 1
+            elif k in ("BinaryOperator", "CompoundAssignOperator") and x.get("opcode", "").endswith("=") and \
+                    x.get("opcode") not in ("==", "!=", "<=", ">=") and probe.lvalue(kids(x)[0]):
+                c += 1
+            elif k == "UnaryOperator" and x.get("opcode") == "&" and probe.lvalue(kids(x)[0]):
+                raise TieBroken("set_heart_beat:compensation", "address of a cursor variable taken")
+        return c
+    if count_writes(shb_fn) != sum(count_writes(st) for st in rel):
+        raise TieBroken("set_heart_beat:compensation", "set_heart_beat writes heart_beat_index / num_hb_to_do outside the "
+                        "removal-branch statements that were translated")
+    count_writes(chb)
+    known_calls = {"memmove", "memcpy", "debug_message", "fatal", "opt_trace", "DEBUG_CHECK"}
+    for x in walk(removal):
+        if x.get("kind") == "CallExpr" and Sym.callee(x) not in known_calls:
+            raise TieBroken("set_heart_beat:removal-calls", "the removal branch calls %s, which the translator does not "
+                            "look into" % Sym.callee(x))
+
+    # ---------------- destruct_object: ORDER of inventory loop / heart-beat removal / O_DESTRUCTED store -------
+    import re
+    m = re.search(r"#define\s+O_DESTRUCTED\s+(0x[0-9a-fA-F]+|\d+)", open(os.path.join(E.REPO, "lib/lpc/object.h")).read())
+    if not m:
+        raise TieBroken("destruct_object:order", "O_DESTRUCTED not found in lib/lpc/object.h")
+    o_destructed = int(m.group(1), 0)
+    dfn = ast_function(bdir, "src/simulate.c", "destruct_object")
+    dtop = kids(body_of(dfn))
+
+    def is_hb_off(n):
+        return n.get("kind") == "CallExpr" and Sym.callee(n) == "set_heart_beat"
+
+    def is_mark(n):
+        if n.get("kind") != "CompoundAssignOperator" or n.get("opcode") != "|=":
+            return False
+        a, b = kids(n)
+        a = strip(a)
+        b = strip(b)
+        while b.get("kind") == "ImplicitCastExpr":
+            b = strip(kids(b)[0])
+        return a.get("kind") == "MemberExpr" and a.get("name") == "flags" and b.get("kind") == "IntegerLiteral" \
+            and int(b["value"]) == o_destructed
+
+    def is_inv_loop(n):
+        return n.get("kind") == "WhileStmt" and any(x.get("kind") == "MemberExpr" and x.get("name") == "contains"
+                                                     for x in walk(kids(n)[0])) \
+            and any(x.get("kind") == "CallExpr" and Sym.callee(x) == "apply" for x in walk(n))
+
+    where = {0: [], 1: [], 2: []}
+    for i, st in enumerate(dtop):
+        if is_inv_loop(st):
+            where[0].append(i)
+        if is_hb_off(st):
+            args = kids(st)
+            lit = strip(args[2]) if len(args) > 2 else {}
+            if lit.get("kind") != "IntegerLiteral" or int(lit.get("value", "1")) != 0:
+                raise TieBroken("destruct_object:order", "set_heart_beat in destruct_object is not called with 0")
+            where[1].append(i)
+        if is_mark(st):
+            where[2].append(i)
+    total_hb = sum(1 for x in walk(dfn) if is_hb_off(x))
+    total_mark = sum(1 for x in walk(dfn) if is_mark(x))
+    if any(len(v) != 1 for v in where.values()) or total_hb != 1 or total_mark != 1:
+        raise TieBroken("destruct_object:order", "destruct_object: expected exactly one top-level inventory loop, one "
+                        "set_heart_beat (ob, 0) and one O_DESTRUCTED store, found %s (calls anywhere: %d, stores anywhere: %d)"
+                        % ({k: len(v) for k, v in where.items()}, total_hb, total_mark))
+    order = [k for k, _ in sorted(where.items(), key=lambda kv: kv[1][0])]
+    info["destructOrder"] = order
+    out.append("/-- src/simulate.c destruct_object: order of 0 = the `while (ob->contains)` loop that applies move_or_destruct() in\n"
+               "    the inventory, 1 = `set_heart_beat (ob, 0)`, 2 = `ob->flags |= O_DESTRUCTED` -/\n"
+               "def destructOrder : List Nat := %s\n" % str(order))
     return "\n".join(out), info
 
 
